@@ -370,6 +370,8 @@ template <template <typename> class Base, bool Unregister> struct signal_sys
   std::vector<int> unregistered;   // how often each slot's unregister callback ran since it was connected
   std::vector<int> generation;     // distinguishes re-used slots in callback identity checks
   std::vector<char> moved_from;    // a moved-from signal has no combiner any more: it may only be destroyed or assigned to
+  std::vector<int> own_count;      // what each callback's own by-value counter said at its last invocation
+  std::vector<int> model_count;    // how often each connection's callback has been invoked since it was connected
 
   static typename sig::combiner_function combiner()
   {
@@ -383,6 +385,8 @@ template <template <typename> class Base, bool Unregister> struct signal_sys
     unregistered.assign(static_cast<std::size_t>(N_CONNS), 0);
     generation.assign(static_cast<std::size_t>(N_CONNS), 0);
     moved_from.assign(static_cast<std::size_t>(N_SIGNALS), 0);
+    own_count.assign(static_cast<std::size_t>(N_CONNS), 0);
+    model_count.assign(static_cast<std::size_t>(N_CONNS), 0);
     sigs[0] = std::make_unique<sig>(combiner());
     m.add_singleton(HEAD + 0);
   }
@@ -436,8 +440,8 @@ template <template <typename> class Base, bool Unregister> struct signal_sys
       if (fs >= 0 && usable)
         r.push_back(op{SIG_MOVE_CONSTRUCT, s, 0, 0, 0});
       for (int k = 0; k < N_SIGNALS; ++k)
-        if (sigs[static_cast<std::size_t>(k)] && k != s && !moved_from[static_cast<std::size_t>(k)])
-          r.push_back(op{SIG_MOVE_ASSIGN, s, k, 0, 0});
+        if (sigs[static_cast<std::size_t>(k)] && !moved_from[static_cast<std::size_t>(k)] && (k != s || usable))
+          r.push_back(op{SIG_MOVE_ASSIGN, s, k, 0, 0}); // includes self assignment (through a second name)
       r.push_back(op{DEL_SIG, s, 0, 0, 0});
     }
     for (int c = 0; c < N_CONNS; ++c)
@@ -464,7 +468,12 @@ template <template <typename> class Base, bool Unregister> struct signal_sys
     {
       int const c = free_conn();
       unregistered[static_cast<std::size_t>(c)] = 0;
-      auto cb = typename sig::function{[this, c](int arg) {
+      own_count[static_cast<std::size_t>(c)] = 0;
+      model_count[static_cast<std::size_t>(c)] = 0;
+      // the callback carries state of its own (by value): the connection's callback object itself is what gets invoked
+      auto cb = typename sig::function{[this, c, n = 0](int arg) mutable {
+        ++n;
+        own_count[static_cast<std::size_t>(c)] = n;
         calls.push_back(c);
         return (c + 1) * arg;
       }};
@@ -495,6 +504,17 @@ template <template <typename> class Base, bool Unregister> struct signal_sys
         w += std::to_string(c) + " ";
       VRT_CHECK(calls == want, "signal:callbacks", "signal %d invoked callbacks [%s], live connections in order [%s]", o.a, g.c_str(), w.c_str());
       VRT_CHECK(got == expect, "signal:fold", "signal %d returned %d, left fold gives %d", o.a, got, expect);
+      // a second emission right away: same callbacks, and each callback's own counter has advanced twice
+      calls.clear();
+      int const got2 = (*Sg(o.a))(typename sig::initial_value{7}, o.b);
+      VRT_CHECK(calls == want && got2 == expect, "signal:second_emission", "a second emission of signal %d differs from the first", o.a);
+      for (int c : want)
+      {
+        model_count[static_cast<std::size_t>(c)] += 2;
+        VRT_CHECK(own_count[static_cast<std::size_t>(c)] == model_count[static_cast<std::size_t>(c)], "signal:callback_state",
+                  "the callback of connection %d has seen %d invocations by its own count, the signal invoked it %d times", c,
+                  own_count[static_cast<std::size_t>(c)], model_count[static_cast<std::size_t>(c)]);
+      }
       break;
     }
     case SIG_MOVE_CONSTRUCT:
@@ -507,11 +527,17 @@ template <template <typename> class Base, bool Unregister> struct signal_sys
       break;
     }
     case SIG_MOVE_ASSIGN:
-      *Sg(o.a) = std::move(*Sg(o.b));
-      m.take_over(HEAD + o.a, HEAD + o.b);
-      moved_from[static_cast<std::size_t>(o.a)] = 0;
-      moved_from[static_cast<std::size_t>(o.b)] = 1;
+    {
+      sig &source = *Sg(o.b);
+      *Sg(o.a) = std::move(source);
+      if (o.a != o.b)
+      {
+        m.take_over(HEAD + o.a, HEAD + o.b);
+        moved_from[static_cast<std::size_t>(o.a)] = 0;
+        moved_from[static_cast<std::size_t>(o.b)] = 1;
+      }
       break;
+    }
     case DEL_SIG:
       Sg(o.a).reset();
       m.remove(HEAD + o.a);
